@@ -70,7 +70,7 @@ def dump_phase(chk, pid, name, consts, invariants, properties, mine, frac, timeo
             chk.sample({"config": name, "program": r["prog"]})
         handle(chk, r, name, mine, nontrivial_fn)
     chk.traces_validated += n
-    if calib > 1e-12:
+    if calib > 1e-10:
         raise MachineryError("evaluator calibration failed on %s: max |ev - TLC| = %.3g" % (name, calib))
     chk.add_phase("replay of TLC dump " + name, programs=n, sampled_fraction=frac, evaluator_calibration_max_err=calib, op_counts=dict(ops))
     tlc.cleanup("%s_%s" % (pid, name))
@@ -95,6 +95,8 @@ def sim_phase(chk, pid, name, consts, mine, num, depth, ctx, nontrivial_fn=None,
         n += 1
         if n % 499 == 1:
             chk.sample({"config": name + " (simulate)", "program": r["prog"]})
+        if r["calib"] > 1e-10:
+            raise MachineryError("evaluator calibration failed on %s (simulate): %.3g" % (name, r["calib"]))
         handle(chk, r, name + "_sim", mine, nontrivial_fn)
     chk.traces_validated += n
     chk.add_phase("replay of TLC -simulate behaviours " + name, behaviours=n, depth=depth, seed=chk.seed)
